@@ -223,6 +223,20 @@ example : LaShaped C04.exTarget (strip C04.exTarget) := laOk_strip_self _ (by de
 example : validateMatch C04.exTarget exDrift (strip C04.exTarget) false = .differ := by decide
 /-- a retyped leaf (`false` ↦ `0`) is drift too -/
 example : validateMatch (.obj [("on", .bool false)]) (.obj [("on", .int 0)]) .null false = .differ := by decide
+/-- numbers are compared exactly, however large: off by one at 2^31 is drift -/
+example : validateMatch (.obj [("bytes", .int 2147483648)]) (.obj [("bytes", .int 2147483649)]) .null false = .differ ∧
+    validateMatch (.obj [("q", .flt (8 * 8589934592 + 4))]) (.obj [("q", .flt (8 * 8589934592 + 5))]) .null false = .differ := by
+  decide
+/-- only `ownerReferences` is skipped by name: a target field called `uid` / `generation` /
+    `resourceVersion` below `spec` is an ordinary field -/
+example : validateMatch (.obj [("spec", .obj [("claimRef", .obj [("uid", .str "u1"), ("resourceVersion", .str "7")]),
+      ("generation", .int 2)])])
+    (.obj [("spec", .obj [("claimRef", .obj [("uid", .str "u2"), ("resourceVersion", .str "7")]),
+      ("generation", .int 2)])]) .null false = .differ := by decide
+/-- an object that is being deleted but still held by a finalizer is compared like any other -/
+example : validateMatch (.obj [("spec", .obj [("n", .int 1)])])
+    (.obj [("metadata", .obj [("deletionTimestamp", .str "2026-01-02T00:00:00Z"), ("finalizers", .arr [.str "f"])]),
+      ("spec", .obj [("n", .int 2)])]) .null false = .differ := by decide
 /-- the F6 witness through the whole (repaired) comparator -/
 example : validateMatch (.obj [(compareAsSet, .arr [.str "s"]), ("s", .arr [.int 1, .int 2])])
     (.obj [("s", .arr [.bool true, .int 2])]) .null false = .differ := by decide
